@@ -62,6 +62,27 @@ CLAIMS = {
         "text": "Generated submit/pass/cancel/wait/stop(long|short) histories: states only move forward, submits after stop are rejected, stop reports success only when every accepted uncancelled task has finished, waiters are settled after stop.",
         "note": "Standalone CoroutinePool (the EventLoops stop path is exercised by the runtime engines); waiters run on helper threads sharing the pool by reference as EventLoops does.",
     },
+    "C16": {
+        "engine": "vsock C16",
+        "category": "fault_enumeration",
+        "technique": PBT + " with fault injection: a scripted kernel (injectable inner libc function) answers generated response sequences; byte-stream model oracle",
+        "text": "For generated (call, buffer shapes, kernel response script, blocking mode, socket timeout, thread/coroutine caller): the hooked call's return value must equal the bytes the scripted kernel moved (or 0 at EOF / zero length, or -1 with the failing errno when nothing moved), the caller's buffers must hold exactly the next stream bytes in order (reads) and the peer must have received exactly the first moved bytes once (writes). A process abort inside the hooked call is attributed to its case and reported.",
+        "note": "The scripted inner function stands for the kernel (documented model in DESIGN.md 3.3); real AF_UNIX socketpairs provide descriptor-level behaviour; <=2 would-blocks per script (10 ms each); response sequences sampled, not exhausted.",
+    },
+    "C17": {
+        "engine": "vsock C17",
+        "category": "fault_enumeration",
+        "technique": PBT + " with fault injection: scripted kernel validates every vectored inner request; poisoning/size-tracking global allocator",
+        "text": "Every inner readv/writev/recvmsg/sendmsg request of every generated case is validated by the scripted kernel: each entry lies inside one caller buffer, in the untransferred suffix, ordered and disjoint, and the element count never exceeds the array really built (allocation size table + 0xA5 poison make an over-long count a decided failure, not a fault).",
+        "note": "Allocation size is known for arrays the hooked code allocates while tracking is on; otherwise poison detection only.",
+    },
+    "C18": {
+        "engine": "vsock C18",
+        "category": "fault_enumeration",
+        "technique": PBT + " with fault injection: scripted kernel x caller's blocking mode; fcntl differential before/after",
+        "text": "All hooked socket calls incl. accept and connect, both blocking modes, all scripted outcomes, thread and coroutine callers: F_GETFL after == before always; a caller-non-blocking descriptor whose first inner call would block returns -1/EAGAIN (EINPROGRESS for connect) after exactly one inner call and without a wait slice (latency deviations must repeat 3/3 to count); a hooked call that does not return within 30 s is reported with its case.",
+        "note": "The 9 ms latency bound sits below the runtime's smallest wait slice (10 ms).",
+    },
     "C25": {
         "engine": "vcore C25",
         "technique": PBT + ": model-based histories (HashMap model, drop-counting values)",
